@@ -569,9 +569,13 @@ class KeychainSqlite3(Keychain):
         """
         name = Name.to_bytes(id_name)
         if name not in self:
-            self.conn.execute('INSERT INTO identities (identity) VALUES (?)', (name,))
-            self.conn.commit()
-            self.new_key(name)
+            # The identity and its first key are committed together (by new_key) or not at all
+            try:
+                self.conn.execute('INSERT INTO identities (identity) VALUES (?)', (name,))
+                self.new_key(name)
+            except BaseException:
+                self.conn.rollback()
+                raise
         if not self.has_default_identity():
             self.set_default_identity(name)
         return self[name]
@@ -595,11 +599,15 @@ class KeychainSqlite3(Keychain):
         :type name: :any:`NonStrictName`
         """
         name = Name.to_bytes(name)
+        self._signer_cache = {}
         for key_name in self[name]:
             self.del_key(key_name)
-        self.conn.execute('DELETE FROM identities WHERE identity=?', (name,))
-        self.conn.commit()
-        self._signer_cache = {}
+        try:
+            self.conn.execute('DELETE FROM identities WHERE identity=?', (name,))
+            self.conn.commit()
+        except BaseException:
+            self.conn.rollback()
+            raise
 
     def get_signer(self, sign_args: dict[str, Any]):
         if sign_args.get('no_signature', False):
@@ -657,11 +665,16 @@ class KeychainSqlite3(Keychain):
         name = Name.to_bytes(name)
         id_name = formal_name[:-2]
         key = self[id_name][formal_name]
-        self.conn.execute('DELETE FROM certificates WHERE key_id=?', (key.row_id,))
-        self.conn.execute('DELETE FROM keys WHERE key_name=?', (name,))
-        self.conn.commit()
-        self.tpm.delete_key(formal_name)
         self._signer_cache = {}
+        try:
+            self.conn.execute('DELETE FROM certificates WHERE key_id=?', (key.row_id,))
+            self.conn.execute('DELETE FROM keys WHERE key_name=?', (name,))
+            # Remove the private key before committing: if that fails the key stays listed and del_key can be repeated
+            self.tpm.delete_key(formal_name)
+            self.conn.commit()
+        except BaseException:
+            self.conn.rollback()
+            raise
 
     def del_cert(self, name: NonStrictName):
         """
@@ -702,16 +715,23 @@ class KeychainSqlite3(Keychain):
             raise KeyError(f'Identity {Name.to_str(id_name)} does not exist')
         identity = self[name]
         key_name, pub_key = self.tpm.generate_key(name, key_type, **kwargs)
-        signer = self.tpm.get_signer(key_name)
-        cert_name, cert_data = self_sign(key_name, pub_key, signer)
-        key_name = Name.to_bytes(key_name)
-        cert_name = Name.to_bytes(cert_name)
-        self.conn.execute('INSERT INTO keys (identity_id, key_name, key_bits) VALUES (?, ?, ?)',
-                          (identity.row_id, key_name, pub_key))
-        self.conn.execute('INSERT INTO certificates (key_id, certificate_name, certificate_data)'
-                          'VALUES ((SELECT id FROM keys WHERE key_name=?), ?, ?)',
-                          (key_name, cert_name, bytes(cert_data)))
-        self.conn.commit()
+        formal_key_name = key_name
+        try:
+            signer = self.tpm.get_signer(key_name)
+            cert_name, cert_data = self_sign(key_name, pub_key, signer)
+            key_name = Name.to_bytes(key_name)
+            cert_name = Name.to_bytes(cert_name)
+            self.conn.execute('INSERT INTO keys (identity_id, key_name, key_bits) VALUES (?, ?, ?)',
+                              (identity.row_id, key_name, pub_key))
+            self.conn.execute('INSERT INTO certificates (key_id, certificate_name, certificate_data)'
+                              'VALUES ((SELECT id FROM keys WHERE key_name=?), ?, ?)',
+                              (key_name, cert_name, bytes(cert_data)))
+            self.conn.commit()
+        except BaseException:
+            # Neither a half-written key row nor an orphan private key may survive a failure
+            self.conn.rollback()
+            self.tpm.delete_key(formal_key_name)
+            raise
 
         if not identity.has_default_key():
             identity.set_default_key(key_name)
@@ -720,7 +740,11 @@ class KeychainSqlite3(Keychain):
     def import_cert(self, key_name: NonStrictName, cert_name: NonStrictName, cert_data: BinaryStr):
         key_name = Name.to_bytes(key_name)
         cert_name = Name.to_bytes(cert_name)
-        self.conn.execute('INSERT INTO certificates (key_id, certificate_name, certificate_data)'
-                          'VALUES ((SELECT id FROM keys WHERE key_name=?), ?, ?)',
-                          (key_name, cert_name, bytes(cert_data)))
-        self.conn.commit()
+        try:
+            self.conn.execute('INSERT INTO certificates (key_id, certificate_name, certificate_data)'
+                              'VALUES ((SELECT id FROM keys WHERE key_name=?), ?, ?)',
+                              (key_name, cert_name, bytes(cert_data)))
+            self.conn.commit()
+        except BaseException:
+            self.conn.rollback()
+            raise
